@@ -9,6 +9,7 @@ import (
 	"path/filepath"
 	"regexp"
 	"sort"
+	"strconv"
 	"strings"
 	"sync"
 	"sync/atomic"
@@ -614,6 +615,25 @@ func runVersionedConcurrency(e *c07Env, round int) {
 						mu.Unlock()
 					}
 					continue
+				}
+				if (c+i)%3 == 1 {
+					// a version listing in the middle of the writes: every entry must be one acknowledged or in-flight upload
+					lresp, err := cl.Do("GET", e.tcp.URL("/"+b, drv.Q("versions", drv.Bare, "max-keys", fmt.Sprint(1+(c+i)%7))), nil, nil, 0)
+					if err != nil || lresp.Status != 200 {
+						r.Violation(sig("C07", "mem", "version-listing-failed", "concurrent"), fmt.Sprintf("ListObjectVersions during concurrent writes failed: %v %v", lresp, err), nil)
+						continue
+					}
+					r.Count("version_listings_during_writes", 1)
+					if vr, perr := drv.ParseVersions(lresp.Body); perr == nil {
+						for _, en := range vr.Entries {
+							if en.Marker {
+								continue
+							}
+							if _, ok := e.reg.idOfETag(en.ETag); !ok || en.VersionID == "" {
+								r.Violation(sig("C07", "mem", "listed-etag-never-existed", "versions"), fmt.Sprintf("ListObjectVersions during concurrent writes shows %s version %q with ETag %s, which no upload has", en.Key, short(en.VersionID), en.ETag), nil)
+							}
+						}
+					}
 				}
 				id, body := e.reg.mint(key, false)
 				resp, err := cl.Do("PUT", e.tcp.URL(drv.ObjPath(b, key), ""), nil, bytes.NewReader(body), int64(len(body)))
@@ -1244,17 +1264,82 @@ func runGatedPair(e *c07Env, aName, point, bName string, caseNo int) {
 	}
 }
 
+
+// ---- deadlock watchdog ------------------------------------------------------------
+
+var parkedOnLock = regexp.MustCompile(`^goroutine (\d+)[^\[]*\[(sync\.(?:RW)?Mutex\.R?Lock|semacquire|sync\.Cond\.Wait)[^\]]*, (\d+) minutes\]`)
+var gofakes3Frame = regexp.MustCompile(`(?m)^github\.com/johannesboyne/gofakes3[^\s(]*\.([^\s(]*\([^)]*\)\.[A-Za-z0-9_]+|[A-Za-z0-9_]+)\(`)
+
+// c07Watchdog looks, every few seconds, for request handlers that the runtime
+// itself reports as parked on a lock for two minutes or more. Nothing in the
+// harness holds a server lock for longer than a fraction of a second, so such a
+// handler is deadlocked. The verdict comes from the goroutine states, not from a
+// request deadline.
+func c07Watchdog(r *rep.Reporter, stop <-chan struct{}) {
+	t := time.NewTicker(10 * time.Second)
+	defer t.Stop()
+	for {
+		select {
+		case <-stop:
+			return
+		case <-t.C:
+		}
+		dump := allStacks()
+		var where []string
+		n := 0
+		for _, blk := range strings.Split(dump, "\n\n") {
+			if !strings.Contains(blk, "gofakes3.(*GoFakeS3).routeBase") {
+				continue
+			}
+			m := parkedOnLock.FindStringSubmatch(blk)
+			if m == nil {
+				continue
+			}
+			if mins, _ := strconv.Atoi(m[3]); mins < 2 {
+				continue
+			}
+			n++
+			if f := gofakes3Frame.FindStringSubmatch(blk); f != nil {
+				where = append(where, f[1])
+			}
+		}
+		if n == 0 {
+			continue
+		}
+		sort.Strings(where)
+		var uniq []string
+		for i, w := range where {
+			if i == 0 || w != where[i-1] {
+				uniq = append(uniq, w)
+			}
+		}
+		if len(uniq) > 3 {
+			uniq = uniq[:3]
+		}
+		path := filepath.Join(rep.Root, "out", "C07", fmt.Sprintf("deadlock-%d.txt", time.Now().UnixNano()))
+		os.MkdirAll(filepath.Dir(path), 0755)
+		os.WriteFile(path, []byte(dump), 0644)
+		r.Violation(sig("C07", "any", "deadlock", strings.Join(uniq, "+")), fmt.Sprintf("%d request handlers have been parked on a server lock for at least two minutes (innermost server frames: %s); nothing outside the server holds those locks", n, strings.Join(uniq, ", ")),
+			map[string]interface{}{"goroutine_dump": path})
+		os.Exit(100 + r.Finish())
+	}
+}
+
 // ---- driver ---------------------------------------------------------------------
 
 func runC07(c *Ctx) {
 	r := c.R
-	r.SetRule("(1) short concurrent histories over loopback TCP: 2-16 clients x 1-6 operations (put/get/head/delete/copy incl. self-copy/list) on 1-3 keys per history, every written body unique, call/return stamped by one monotonic clock, a final read of every key at quiescence; every read must be exactly one uploaded body with matching ETag/length, and each key's sub-history must be linearizable against a register model (porcupine); (2) concurrent versioned uploads/deletes: ids distinct, GET ?versionId returns exactly that upload, nothing lost; (3) concurrent part uploads, completes and aborts of one upload: held parts are acknowledged uploads, at most one complete wins, the object is exactly the listed parts; (4) a slow reader overlapping an acknowledged overwrite and a slow uploader with reads in between; (5) every ordered pair (A parked at a hook point, B run inside A's window) of operation kinds on one key; (6) bucket life cycle: create/delete/head bucket racing put/get/delete/list on two keys of that bucket, random histories over TCP and object operations parked at hook points with bucket operations inside the window, each whole history checked against a sequential bucket model (existence + both values) with porcupine; (7) the Go race detector over all of it; memory structures audited at quiescence; on all six backends; distinct = distinct observed interleavings (sequence of call/return events per history)")
+	r.SetRule("(1) short concurrent histories over loopback TCP: 2-16 clients x 1-6 operations (put/get/head/delete/copy incl. self-copy/list) on 1-3 keys per history, every written body unique, call/return stamped by one monotonic clock, a final read of every key at quiescence; every read must be exactly one uploaded body with matching ETag/length, and each key's sub-history must be linearizable against a register model (porcupine); (2) concurrent versioned uploads/deletes: ids distinct, GET ?versionId returns exactly that upload, nothing lost; (3) concurrent part uploads, completes and aborts of one upload: held parts are acknowledged uploads, at most one complete wins, the object is exactly the listed parts; random concurrent histories of part uploads / completes (current, subset and stale lists) / aborts / ListParts / GET on one upload, a slow part upload whose body is still arriving while a complete or abort is answered, and part/complete parked at their hook points with the other operations inside the window, each history checked with porcupine against a sequential model of the upload (live?, body held per part number, bodies of the completed object); (4) a slow reader overlapping an acknowledged overwrite and a slow uploader with reads in between; (5) every ordered pair (A parked at a hook point, B run inside A's window) of operation kinds on one key; (6) bucket life cycle: create/delete/head bucket racing put/get/delete/list on two keys of that bucket, random histories over TCP and object operations parked at hook points with bucket operations inside the window, each whole history checked against a sequential bucket model (existence + both values) with porcupine; (7) the Go race detector over all of it; memory structures audited at quiescence; on all six backends; distinct = distinct observed interleavings (sequence of call/return events per history)")
 	nhist := r.Pick(140, 3000)
 	rounds := r.Pick(8, 150)
 	nlife := r.Pick(100, 2500)
+	nmp := r.Pick(80, 2000)
 	kinds := drv.AllKinds
 	r.Set("backends", kinds)
 	racePrefix := os.Getenv("VERIF_RACE_LOG")
+	stopWatch := make(chan struct{})
+	defer close(stopWatch)
+	go c07Watchdog(r, stopWatch)
 	type job struct {
 		kind string
 		part string
@@ -1266,7 +1351,10 @@ func runC07(c *Ctx) {
 		for lo := 0; lo < nhist; lo += 20 {
 			jobs = append(jobs, job{k, "hist", lo, lo + 20})
 		}
-		jobs = append(jobs, job{k, "multipart", 0, rounds}, job{k, "slow", 0, rounds})
+		jobs = append(jobs, job{k, "multipart", 0, rounds}, job{k, "slow", 0, rounds}, job{k, "slowpart", 0, rounds * 2})
+		for lo := 0; lo < nmp; lo += 20 {
+			jobs = append(jobs, job{k, "mplin", lo, lo + 20})
+		}
 		if !drv.IsSingle(k) {
 			for lo := 0; lo < nlife; lo += 25 {
 				jobs = append(jobs, job{k, "lifecycle", lo, lo + 25})
@@ -1305,6 +1393,14 @@ func runC07(c *Ctx) {
 			for i := j.lo; i < j.hi; i++ {
 				runBucketLifecycle(e, i)
 			}
+		case "mplin":
+			for i := j.lo; i < j.hi; i++ {
+				runMultipartHistory(e, i)
+			}
+		case "slowpart":
+			for i := j.lo; i < j.hi; i++ {
+				runSlowPartUpload(e, i)
+			}
 		}
 		c07Quiescent(r, s, j.kind)
 	})
@@ -1335,6 +1431,19 @@ func runC07(c *Ctx) {
 							caseNo++
 							runGatedPair(e, a, p, b, caseNo)
 						}
+					}
+				}
+			}
+			// operations on one multipart upload: A parked, B inside the window
+			for rep := 0; rep < r.Pick(1, 4); rep++ {
+				for _, b := range []string{"complete", "complete-subset", "abort", "part", "listparts"} {
+					caseNo++
+					runGatedMultipart(e, "part", "uploadpart.before-lock", b, caseNo)
+				}
+				for _, p := range []string{"complete.before-put", "complete.after-put"} {
+					for _, b := range []string{"part", "part-other", "abort", "complete", "listparts", "getobj"} {
+						caseNo++
+						runGatedMultipart(e, "complete", p, b, caseNo)
 					}
 				}
 			}
@@ -1390,6 +1499,10 @@ func runC07(c *Ctx) {
 	r.Require("requests_during_slow_upload", 30)
 	r.Require("multipart_completes_won", 5)
 	r.Require("version_reads", 100)
+	r.Require("multipart_histories_linearizable", 200)
+	r.Require("part_upload_overlapping_complete_or_abort", 50)
+	r.Require("slow_part_uploads", 50)
+	r.Require("gated_multipart_pairs_parked", 50)
 	r.Require("bucket_lifecycle_histories_linearizable", 100)
 	r.Require("bucket_op_overlapping_object_op", 50)
 	if to := r.Counter("porcupine_timeouts"); to*100 > r.Counter("keys_linearizable")+1 {
